@@ -485,18 +485,28 @@ func (Prop) Run(p *core.Plan) *core.Result {
 		total := ctl.end - ctl.start
 		// largest gap between consecutive polls (calibration of the liveness bound)
 		prev := ctl.start
+		var runGap, gapAt uint64 // the largest gap of this control run and the event it starts at
 		for _, ps := range ctl.sig.pollSeqs {
 			if g := ps - prev; g > uint64(res.Probes["max_poll_gap_events"]) {
 				res.Probes["max_poll_gap_events"] = int(g)
 			}
+			if g := ps - prev; g > runGap {
+				runGap, gapAt = g, prev-ctl.start+1
+			}
 			prev = ps
 		}
-		if interp == "v1" && res.Probes["max_poll_gap_events"] > BAfter/10 {
-			return &core.Result{Infra: fmt.Sprintf("liveness bound too tight: poll gap %d events in a control run", res.Probes["max_poll_gap_events"])}
+		if g := ctl.end - prev; g > runGap {
+			runGap, gapAt = g, prev-ctl.start+1
 		}
 		instants := w.Instants
 		if len(instants) == 0 {
 			instants = autoInstants(p, &w, ctl, total)
+			if runGap > BAfter/20 && gapAt <= total {
+				// an unusually long stretch without a poll: the signal fires at its very beginning
+				// (whether the stretch spans more than the statement in progress is for the oracle)
+				instants = append(instants, Instant{Event: gapAt})
+				res.Probes["instants_placed_in_long_unpolled_stretches"]++
+			}
 		}
 		e0 := ctl.effects
 		for _, in := range instants {
@@ -537,6 +547,11 @@ func (Prop) Run(p *core.Plan) *core.Result {
 			if sig.firstTrue != 0 && interp == "v1" && len(w.Scripts) > 1 {
 				res.Probes["signal_observed_in_program_with_use"]++
 			}
+		}
+		if interp == "v1" && runGap > BAfter/2 && len(w.Instants) == 0 {
+			// no instant exposed a violation, yet the work between two polls comes near the liveness
+			// bound: the bound must stay far above it, or "not prompt" means nothing
+			return &core.Result{Infra: fmt.Sprintf("liveness bound too tight: poll gap %d events in a control run", runGap)}
 		}
 	}
 	res.Sample = map[string]interface{}{"main.p": src["main.p"], "interps": w.Interps}
